@@ -17,15 +17,17 @@
    send_msg(m) =  segment A: state gates, Codec.encode numbering (SequenceReset / PossDupFlag=Y
                   keep their own MsgSeqNum, everything else allocates next_num_out), writer.write
                   ; suspension in drain ;
-                  segment B: Journaler.persist_msg under the frame's number: DuplicateSeqNoError
-                  if the row exists, else row n := frame and stored counter := n.
+                  segment B: nothing for a reply to a ResendRequest (PossDupFlag=Y, or SequenceReset
+                  with GapFillFlag=Y: the journal keeps the original messages); otherwise
+                  Journaler.persist_msg under the frame's number: DuplicateSeqNoError if the row
+                  exists, else row n := frame and stored counter := n.
 
    The reader task servicing a ResendRequest (_process_resend) is a task too: IStateHook
-   (HANDLING) ; IResend = recover_messages + remember next_num_out + set_seq_num(next_out :=
-   begin) (which deletes the journal rows >= begin) and then, per replayed row, [should_replay
-   hook] ; gap fill / PossDup send ... ; tail gap fill ; IRestore ; IStateHook ACTIVE.
+   (HANDLING) ; IResend = recover_messages + remember next_num_out, then per recovered row
+   [should_replay hook] ; gap fill / PossDup send ... ; tail gap fill ; IStateHook ACTIVE.
+   It neither rewinds next_num_out nor touches the journal (repair of D12).
 
-   Faithful to the code including its defects (D12).  No proofs here (Lemmas/SchedL.v).
+   Faithful to the code.  No proofs here (Lemmas/SchedL.v).
    Inbound bookkeeping (next_num_in, inbound journal rows, _finalize_message) is not modelled:
    it does not touch any outbound variable.  Constants are the ConnectionState / ConnectionRole
    numbers and the MsgType characters of the code; harness/c14.py compares them on every run. *)
@@ -54,11 +56,14 @@ Definition R_ACCEPTOR := 2.
 Definition MAXSIZE := 9223372036854775807.
 
 (* a message handed to send_msg: type, an identity (Text(58), or NewSeqNo(36) of a SequenceReset),
-   its own MsgSeqNum(34) if it carries one, PossDupFlag(43)=Y *)
-Record msg := mkMsg { m_ty : Z; m_id : Z; m_own : option Z; m_pd : bool }.
+   its own MsgSeqNum(34) if it carries one, PossDupFlag(43)=Y, GapFillFlag(123)=Y *)
+Record msg := mkMsg { m_ty : Z; m_id : Z; m_own : option Z; m_pd : bool; m_gf : bool }.
 
 (* a frame on the wire / in the journal *)
-Record frame := mkF { f_seq : Z; f_ty : Z; f_pd : bool; f_id : Z }.
+Record frame := mkF { f_seq : Z; f_ty : Z; f_pd : bool; f_id : Z; f_gf : bool }.
+
+(* send_msg does not journal the replies to a ResendRequest *)
+Definition nojournal (f : frame) : bool := f_pd f || ((f_ty f =? T_SEQRESET) && f_gf f).
 
 Inductive err := EConn | EEncoding | EDupSeq | EAssert | EDupTag.
 Inductive outcome := OOk | OExc (e : err).
@@ -83,8 +88,7 @@ Inductive instr :=
 | IStateHook (s : Z) (unless_awaiting : bool)   (* [if state != RESENDREQ_AWAITING:] await self._state_set(s) *)
 | IHook                                  (* an awaited application hook *)
 | ISetRole (r : Z)
-| IResend (b e : Z) (declined : list Z)  (* _process_resend from recover_messages to the rewind *)
-| IRestore (saved : Z)                   (* set_seq_num(next_num_out = saved) *)
+| IResend (b e : Z) (declined : list Z)  (* _process_resend: recover_messages, then the replay loop *)
 | IRaise (e : err).                      (* a failing assert / DuplicatedTagError inside the handler *)
 
 Inductive wait := WStart | WHook | WDrain (f : frame) (ticket : Z) | WDone.
@@ -94,9 +98,7 @@ Inductive wait := WStart | WHook | WDrain (f : frame) (ticket : Z) | WDone.
    with its next message).  t_out: outcome of each send call, newest first. *)
 Record task := mkT { t_code : list instr; t_wait : wait; t_out : list outcome; t_exc : option err; t_abort : bool }.
 
-Inductive res :=
-| RDone (t : task) (w : world)
-| RExpand (b e : Z) (d : list Z) (rest : list instr) (out : list outcome) (w : world).
+Definition res : Type := task * world.
 
 (* ---------------------------------------------------------------- journal *)
 
@@ -118,10 +120,6 @@ Definition persist (f : frame) (w : world) : option world :=
   | Some _ => None
   | None => Some (mkW (nout w) (f_seq f) (insert_row (f_seq f) f (rows w)) (rwire w) (st w) (role w) (treq w) (tick w))
   end.
-
-(* Journaler.set_seq_num(session, next_num_out = n), n > 0 *)
-Definition set_out (n : Z) (w : world) : world :=
-  mkW n (n - 1) (filter (fun r => fst r <? n) (rows w)) (rwire w) (st w) (role w) (treq w) (tick w).
 
 Definition set_st (s : Z) (w : world) : world := mkW (nout w) (sout w) (rows w) (rwire w) s (role w) (treq w) (tick w).
 Definition set_role (r : Z) (w : world) : world := mkW (nout w) (sout w) (rows w) (rwire w) (st w) r (treq w) (tick w).
@@ -151,51 +149,52 @@ Definition push_wire (f : frame) (w : world) : world :=
 
 Definition raise_ (abort : bool) (e : err) (is_send : bool) (out : list outcome) (w : world)
            (k : list outcome -> world -> res) : res :=
-  if abort then RDone (mkT [] WDone (if is_send then OExc e :: out else out) (Some e) abort) w
+  if abort then (mkT [] WDone (if is_send then OExc e :: out else out) (Some e) abort, w)
   else k (OExc e :: out) w.
 
-(* TestRequest gate, numbering, write, suspension in drain *)
+(* TestRequest gate, numbering, write, suspension in drain; rest = the code after this call *)
 Definition send_tail (abort : bool) (m : msg) (rest : list instr) (out : list outcome) (w : world)
            (k : list outcome -> world -> res) : res :=
   if (m_ty m =? T_TESTREQ) && negb (treq w) then raise_ abort EConn true out w k
   else match number m w with
        | inl e => raise_ abort e true out w k
        | inr (n, w1) =>
-           let f := mkF n (m_ty m) (m_pd m) (m_id m) in
-           RDone (mkT rest (WDrain f (tick w1)) out None abort) (push_wire f w1)
+           let f := mkF n (m_ty m) (m_pd m) (m_id m) (m_gf m) in
+           (mkT rest (WDrain f (tick w1)) out None abort, push_wire f w1)
        end.
 
 Definition send_head (abort : bool) (m : msg) (rest : list instr) (out : list outcome) (w : world)
            (k : list outcome -> world -> res) : res :=
   match gate m w with
   | GErr e => raise_ abort e true out w k
-  | GHook => RDone (mkT (ISendRest m :: rest) WHook out None abort) (set_st S_LOGON_SENT w)
+  | GHook => (mkT (ISendRest m :: rest) WHook out None abort, set_st S_LOGON_SENT w)
   | GGo => send_tail abort m rest out w k
   end.
 
-Definition testreq_msg : msg := mkMsg T_TESTREQ 0 None false.
+Definition testreq_msg : msg := mkMsg T_TESTREQ 0 None false false.
 
-(* run the code of one task up to its next suspension *)
-Fixpoint exec (abort : bool) (code : list instr) (out : list outcome) (w : world) : res :=
+(* run `code` up to the next suspension; `tail` is the code that follows it in the task, `k` runs that
+   tail when `code` ends without suspending.  IResend is handled by exec below. *)
+Fixpoint execf (abort : bool) (code tail : list instr) (k : list outcome -> world -> res)
+         (out : list outcome) (w : world) : res :=
   match code with
-  | [] => RDone (mkT [] WDone out None abort) w
+  | [] => k out w
   | i :: rest =>
-      let k := exec abort rest in
+      let k' := execf abort rest tail k in
+      let after := rest ++ tail in
       match i with
-      | ISend m => send_head abort m rest out w k
-      | ISendRest m => send_tail abort m rest out (set_role R_INITIATOR w) k
+      | ISend m => send_head abort m after out w k'
+      | ISendRest m => send_tail abort m after out (set_role R_INITIATOR w) k'
       | ITestReq =>
-          if treq w then raise_ abort EConn true out w k
-          else send_head abort testreq_msg rest out (set_treq true w) k
+          if treq w then raise_ abort EConn true out w k'
+          else send_head abort testreq_msg after out (set_treq true w) k'
       | IStateHook s ua =>
-          if ua && (st w =? S_AWAITING) then k out w
-          else RDone (mkT rest WHook out None abort) (set_st s w)
-      | IHook => RDone (mkT rest WHook out None abort) w
-      | ISetRole r => k out (set_role r w)
-      | IResend b e d => RExpand b e d rest out w
-      | IRestore saved =>
-          if saved <=? 0 then raise_ abort EAssert false out w k else k out (set_out saved w)
-      | IRaise e => raise_ abort e false out w k
+          if ua && (st w =? S_AWAITING) then k' out w
+          else (mkT after WHook out None abort, set_st s w)
+      | IHook => (mkT after WHook out None abort, w)
+      | ISetRole r => k' out (set_role r w)
+      | IResend _ _ _ => k' out w
+      | IRaise e => raise_ abort e false out w k'
       end
   end.
 
@@ -204,18 +203,19 @@ Fixpoint exec (abort : bool) (code : list instr) (out : list outcome) (w : world
 Definition is_sess (ty : Z) : bool :=
   (ty =? T_LOGON) || (ty =? T_LOGOUT) || (ty =? T_RESENDREQ) || (ty =? T_HEARTBEAT) || (ty =? T_TESTREQ) || (ty =? T_SEQRESET).
 
-Definition gapfill_msg (b newseq : Z) : msg := mkMsg T_SEQRESET newseq (Some b) false.
-Definition replay_msg (f : frame) : msg := mkMsg (f_ty f) (f_id f) (Some (f_seq f)) true.
+Definition gapfill_msg (b newseq : Z) : msg := mkMsg T_SEQRESET newseq (Some b) false true.
+Definition replay_msg (f : frame) : msg := mkMsg (f_ty f) (f_id f) (Some (f_seq f)) true false.
 
 Definition mem_z (x : Z) (l : list Z) : bool := existsb (Z.eqb x) l.
 
-(* the loop over the recovered rows and what follows it, as code; gfb / gfe = gap_fill_begin / _end *)
+(* the loop over the recovered rows and what follows it, as code; gfb / gfe = gap_fill_begin / _end,
+   saved = next_num_out when the request arrived *)
 Fixpoint replay_code (rs : list (Z * frame)) (d : list Z) (gfb gfe saved : Z) : list instr :=
   match rs with
   | [] =>
       if saved <? gfe then [IRaise EAssert]
       else (if gfb <? saved then [ISend (gapfill_msg gfb saved)] else [])
-           ++ [IRestore saved; IStateHook S_ACTIVE true]
+           ++ [IStateHook S_ACTIVE true]
   | (_, f) :: rs' =>
       let n := f_seq f in
       if is_sess (f_ty f) then replay_code rs' d gfb (n + 1) saved
@@ -229,38 +229,34 @@ Fixpoint replay_code (rs : list (Z * frame)) (d : list Z) (gfb gfe saved : Z) : 
 Definition recover (b e : Z) (l : list (Z * frame)) : list (Z * frame) :=
   filter (fun r => (b <=? fst r) && (fst r <=? e)) l.
 
-(* recover_messages, remember next_num_out, set_seq_num(next_num_out = begin): None = AssertionError *)
-Definition rewind (b e : Z) (d : list Z) (w : world) : option (list instr * world) :=
+(* BeginSeqNo below 1 is clamped to 1; recover_messages(begin, end or maxsize), remember next_num_out, the loop *)
+Definition resend_code (b0 e : Z) (d : list Z) (w : world) : list instr :=
+  let b := Z.max b0 1 in
   let e' := if e =? 0 then MAXSIZE else e in
-  if b <=? 0 then None
-  else Some (replay_code (recover b e' (rows w)) d b b (nout w), set_out b w).
+  replay_code (recover b e' (rows w)) d b b (nout w).
 
-Fixpoint drive (fuel : nat) (abort : bool) (r : res) : task * world :=
-  match r with
-  | RDone t w => (t, w)
-  | RExpand b e d rest out w =>
-      match fuel with
-      | O => (mkT [] WDone out None abort, w)
-      | S fuel' =>
-          match rewind b e d w with
-          | None => drive fuel' abort (raise_ abort EAssert false out w (exec abort rest))
-          | Some (code, w') => drive fuel' abort (exec abort (code ++ rest) out w')
-          end
-      end
+Definition finish (abort : bool) (out : list outcome) (w : world) : res := (mkT [] WDone out None abort, w).
+
+(* run the code of one task up to its next suspension *)
+Fixpoint exec (abort : bool) (code : list instr) (out : list outcome) (w : world) : res :=
+  match code with
+  | [] => finish abort out w
+  | IResend b e d :: rest => execf abort (resend_code b e d w) rest (exec abort rest) out w
+  | i :: rest => execf abort [i] rest (exec abort rest) out w
   end.
 
 (* ---------------------------------------------------------------- scheduler *)
 
 Definition resume (t : task) (w : world) : task * world :=
-  let fuel := S (length (t_code t)) in
   match t_wait t with
   | WDone => (t, w)
-  | WStart | WHook => drive fuel (t_abort t) (exec (t_abort t) (t_code t) (t_out t) w)
+  | WStart | WHook => exec (t_abort t) (t_code t) (t_out t) w
   | WDrain f _ =>
-      match persist f w with
-      | Some w' => drive fuel (t_abort t) (exec (t_abort t) (t_code t) (OOk :: t_out t) w')
-      | None => drive fuel (t_abort t) (raise_ (t_abort t) EDupSeq true (t_out t) w (exec (t_abort t) (t_code t)))
-      end
+      if nojournal f then exec (t_abort t) (t_code t) (OOk :: t_out t) w
+      else match persist f w with
+           | Some w' => exec (t_abort t) (t_code t) (OOk :: t_out t) w'
+           | None => raise_ (t_abort t) EDupSeq true (t_out t) w (exec (t_abort t) (t_code t))
+           end
   end.
 
 Record config := mkC { c_w : world; c_ts : list task }.
@@ -317,14 +313,14 @@ Definition sender_task (ms : list msg) : task := mkT (map ISend ms) WStart [] No
 Definition heartbeat_task : task := mkT [ITestReq] WStart [] None false.
 (* the reader task inside _process_message for: *)
 Definition reader (code : list instr) : task := mkT code WStart [] None true.
-Definition logon_msg : msg := mkMsg T_LOGON 0 None false.
+Definition logon_msg : msg := mkMsg T_LOGON 0 None false false.
 (*   a Logon on a fresh acceptor connection *)
 Definition reader_logon : task :=
   reader [IStateHook S_LOGON_RECV false; ISetRole R_ACCEPTOR; ISend logon_msg; IStateHook S_ACTIVE false; IHook].
 (*   a TestRequest *)
-Definition reader_testreq : task := reader [ISend (mkMsg T_HEARTBEAT 0 None false)].
+Definition reader_testreq : task := reader [ISend (mkMsg T_HEARTBEAT 0 None false false)].
 (*   a message numbered above the expected number (gap): ResendRequest + state change *)
-Definition reader_gap : task := reader [ISend (mkMsg T_RESENDREQ 0 None false); IStateHook S_AWAITING false].
+Definition reader_gap : task := reader [ISend (mkMsg T_RESENDREQ 0 None false false); IStateHook S_AWAITING false].
 (*   an application message in order *)
 Definition reader_app : task := reader [IHook].
 (*   a ResendRequest(BeginSeqNo = b, EndSeqNo = e); d = numbers for which should_replay says no *)
